@@ -471,7 +471,7 @@ def mutators():
 def dmutators():
     def other_bytes(t):
         for e in t:
-            if e.get("ev") == "Deliver":
+            if e.get("ev") == "Deliver" and e["commit"] > 0:
                 e["bytes"] = e["bytes"] % t[0]["NN"] + 1
                 e["hash"] = e["bytes"]
                 return t
@@ -593,14 +593,23 @@ def run(tier, seed):
                 obs[ob] = obs.get(ob, 0) + 1
     # delivery clause on real clusters
     cl = [[{"ev": "Cluster", "n": 4, "slot": r.randint(1, 1000), "seed": seed * 100 + i}] for i in range(6 if thorough else 1)]
-    vlib.conformance(o, FAMILY, DTRACE[0], DTRACE[1], PKG, cl, test="TestCluster", tag="cluster", exec_timeout=600)
+    try:
+        vlib.conformance(o, FAMILY, DTRACE[0], DTRACE[1], PKG, cl, test="TestCluster", tag="cluster", exec_timeout=600)
+    except vlib.Infra as e:
+        if not o.violations:
+            raise
+        o.notes.append("stage cluster after a reproduced violation: %s" % str(e)[:300])
     check_anomalies("cluster")
+    unobserved = sum(1 for t in read_traces("cluster") for e in t if e.get("ev") == "Deliver" and e.get("commit") == 0)
+    if unobserved:
+        o.notes.append("%d delivery event(s) without a visible commit quorum (relation to the agreed hash unobserved there)" % unobserved)
     # binding negative controls on recorded traces
     n0 = len(o.selftests)
     pool = tr_cases + read_traces("time") + read_traces("seq") + read_traces("bytes")
     vlib.binding_selftest(o, FAMILY, TRACE[0], TRACE[1], pool, mutators())
     vlib.binding_selftest(o, FAMILY, DTRACE[0], DTRACE[1], read_traces("cluster"), dmutators())
-    if len(o.selftests) - n0 < 8 + 3 and not o.violations:
+    observed = any(e.get("ev") == "Deliver" and e.get("commit", 0) > 0 for t in read_traces("cluster") for e in t)
+    if len(o.selftests) - n0 < 8 + (3 if observed else 2) and not o.violations:
         raise vlib.Infra("binding self-test: some negative control found no applicable trace (%d)" % (len(o.selftests) - n0))
     return vlib.finish(o, "exploration", RULE, ASSUMPTIONS,
                        extra_cov={"cases_enumerated_by_tlc": len(cases), "case_classes": len({ckey(s)[1:2] + ckey(s)[3:4] for s in cases}),
